@@ -104,6 +104,25 @@ Theorem C10_scaled_pre_value : forall p l u s o m x sv, 0 < s ->
   == x + magnitude_1 p l u m * sv.
 Proof. exact scaled_pre_value. Qed.
 
+(* the whole of GradientConfig.fix_perturbations as the checker evaluates it ([magnitudes_scaled]; scales 1 and
+   offsets 0 when no scaler is configured): an accepted configuration stores for variable i the magnitude that
+   C10_magnitude_scaled relates to the user's units, RELATIVE variables then have finite bounds, and the configuration
+   is rejected exactly when a RELATIVE variable has an infinite bound *)
+Theorem C10_magnitudes_accepted : forall pts lbs ubs ss os ms mags i l u s o,
+  magnitudes_scaled pts lbs ubs ss os ms = MagOk mags ->
+  length ubs = length lbs -> length ss = length lbs -> length os = length lbs ->
+  nth_error lbs i = Some l -> nth_error ubs i = Some u -> nth_error ss i = Some s -> nth_error os i = Some o ->
+  exists p m, bnth pts i = Some p /\ bnth ms i = Some m /\
+    nth_error mags i = Some (magnitude_1s p (eb_to_opt s o l) (eb_to_opt s o u) s m) /\
+    (Z.eqb p pt_relative = true -> efinite l && efinite u = true).
+Proof. exact magnitudes_scaled_ok. Qed.
+Theorem C10_magnitudes_rejected : forall pts lbs ubs ss os ms, let n := length lbs in
+  length pts = n -> length ms = n -> length ubs = n -> length ss = n -> length os = n -> n <> 1%nat ->
+  (magnitudes_scaled pts lbs ubs ss os ms = MagInfinite <->
+   exists i l u, nth_error pts i = Some pt_relative /\ nth_error lbs i = Some l /\ nth_error ubs i = Some u /\
+                 (efinite l && efinite u = false)).
+Proof. exact magnitudes_scaled_infinite_iff. Qed.
+
 (* magnitudes: (upper - lower) * fraction for RELATIVE variables, which need finite bounds; the configured
    value otherwise; a RELATIVE variable with an infinite bound rejects the configuration *)
 Theorem C10_relative : forall pts lbs ubs ms mags i l u,
@@ -167,6 +186,8 @@ Print Assumptions C10_mirror_repeated_upper.
 Print Assumptions C10_mirror_far.
 Print Assumptions C10_magnitude_scaled.
 Print Assumptions C10_scaled_pre_value.
+Print Assumptions C10_magnitudes_accepted.
+Print Assumptions C10_magnitudes_rejected.
 Print Assumptions C10_relative.
 Print Assumptions C10_relative_rejected.
 Print Assumptions C10_array_laws.
